@@ -193,3 +193,25 @@ class Lib(object):
         r = {"cext": cext, "prune": prune}
         cx._cache[("counting",)] = r
         return r
+
+    # ------------------------------------------------------------------ longest stored prefix (definition by description)
+    def longest_prefix(self):
+        """lp_has(V,q) <=> some stored key is a prefix of q ; lp_key(V,q) = the longest such key.
+        Existence of the maximum is a fact about finite chains (a key has finitely many prefixes): assumed."""
+        cx = self.cx
+        if ("lp",) in cx._cache:
+            return cx._cache[("lp",)]
+        ko = self.key()
+        KS = z3.ArraySort(cx.Key, B)
+        has = z3.Function("lp_has", KS, cx.Key, B)
+        lpk = z3.Function("lp_key", KS, cx.Key, cx.Key)
+        V = z3.Const("V!l", KS)
+        k, q = z3.Consts("k!l q!l", cx.Key)
+        cx.axiom("lp.sound", z3.ForAll([V, q], z3.Implies(has(V, q), z3.And(z3.Select(V, lpk(V, q)), ko["pre"](lpk(V, q), q))),
+                                      patterns=[has(V, q)]))
+        cx.axiom("lp.max", z3.ForAll([V, q, k], z3.Implies(z3.And(z3.Select(V, k), ko["pre"](k, q)),
+                                                           z3.And(has(V, q), ko["klen"](k) <= ko["klen"](lpk(V, q)))),
+                                    patterns=[z3.MultiPattern(z3.Select(V, k), ko["pre"](k, q))]))
+        r = {"has": has, "key": lpk}
+        cx._cache[("lp",)] = r
+        return r
